@@ -334,7 +334,7 @@ def check_ctor_factory(model, R):
                 posv, kwv = flatp(got), {k_: flatp([v_]) for k_, v_ in hits[0][2].items()}
                 allv = posv + [y for v_ in kwv.values() for y in v_]
                 # positional arguments in the user's order; keyword arguments under a name that is also a parameter of the initializer carry that parameter
-                okargs = posv == user[:len(posv)] and all(u in allv for u in user) \
+                okargs = posv[:len(user)] == user[:min(len(posv), len(user))] and all(u in allv for u in user) \
                     and all(v_ == [P.atom(k_)] for k_, v_ in kwv.items() if k_ in own and v_)
             if not okargs:
                 bad.append('%s receives %s, expected the user arguments %s in order' % (want, [x.canon() if isinstance(x, P) else repr(x) for x in flat][:6], [u.canon() for u in user]))
